@@ -952,6 +952,61 @@ def c19a(chk, rows):
             rel = implied_strict_less(f, nu[0][0], {"k": "copy", "place": {"l": 3, "p": []}})
             ok = any(r[1] == "strict" for r in rel)
         chk.ob("C19.a", "get_axis/index-strictly-below-axis-length", ok, f.loc(), "the view is constructed only where `index < shape[axis]` is implied (dominating comparisons on the position argument: %s)" % (rel or "none"))
+    # get_axis answers None for an out-of-range request and for nothing else: with the true edges of `axis >= dimensions()` and
+    # `index >= shape[axis]` removed, no `None` is reachable through comparisons that can be read (a guard such as `dimensions() < 2 => None`
+    # takes the views of one-axis arrays away)
+    ga = chk.fn(ARR + "Array::<T>::get_axis")
+    if ga is not None:
+        blocked = set()
+        read = []
+        for sb, st in ga.switches():
+            s_ = an.switch_subject(ga, sb)
+            d_ = ga.single_def(s_["root"]) if s_["kind"] == "value" and s_["root"] is not None else None
+            if not (d_ and d_[0] == "assign" and d_[3]["k"] == "binop" and d_[3]["op"] in ("Ge", "Gt", "Lt", "Le", "Eq", "Ne")):
+                for tgt in ga.succ.get(sb, []):
+                    blocked.add((sb, tgt))
+                continue
+            def role(op, depth=0):
+                l_ = op_local(op)
+                if l_ is None:
+                    return "const" if op["k"] == "const" else "?"
+                r_ = ga.copy_root(l_)
+                if r_ == 3:
+                    return "index"
+                dd = ga.single_def(r_)
+                if dd and dd[0] == "call" and callee_name(dd[2]["callee"]).endswith("::dimensions"):
+                    return "dims"
+                if dd and dd[0] == "call" and callee_name(dd[2]["callee"]).split("::")[-1] in ("index", "get", "get_unchecked") and len(dd[2]["args"]) == 2 and role(dd[2]["args"][1], depth + 1) == "axis":
+                    return "len"
+                if dd and dd[0] == "assign" and dd[3]["k"] == "use":
+                    pl = op_place(dd[3]["op"])
+                    if pl is not None:
+                        if any(e[0] == "index" for e in pl[1]):
+                            idx = [e[1] for e in pl[1] if e[0] == "index"]
+                            return "len" if idx and role({"k": "copy", "place": {"l": idx[0], "p": []}}, depth + 1) == "axis" else "?"
+                        if pl[0] == 2 and all(e[0] == "field" for e in pl[1]):
+                            return "axis"
+                        if pl[0] == 3 and not pl[1]:
+                            return "index"
+                        if not pl[1] and depth < 6:
+                            return role({"k": "copy", "place": {"l": pl[0], "p": []}}, depth + 1)
+                return "?"
+            lr, rr = role(d_[3]["l"]), role(d_[3]["r"])
+            op = d_[3]["op"]
+            t_true, t_false = st["otherwise"], an.edge_target(st, 0)
+            read.append((op, lr, rr))
+            oob = None
+            if (lr, rr) in (("axis", "dims"), ("index", "len")):
+                oob = {"Ge": t_true, "Lt": t_false}.get(op)
+            elif (lr, rr) in (("dims", "axis"), ("len", "index")):
+                oob = {"Le": t_true, "Gt": t_false}.get(op)
+            if oob is not None:
+                blocked.add((sb, oob))
+        nones = [b for b, i, p, rv, s__ in ga.assigns() if p[0] == 0 and not p[1] and rv["k"] == "aggregate" and rv.get("variant") == "None"]
+        reach = an.reachable_with_edges_removed(ga, 0, set(), blocked)
+        hit = [ga.loc(b) for b in nones if b in reach]
+        chk.ob("C19.a", "get_axis/None-only-when-out-of-range", bool(nones) and not hit, ga.loc(),
+               "comparisons read: %s; None reachable without an out-of-range test at %s" % (read, hit or "no place"))
     # Array::get / get_mut: the element is read at the position flat_index() returned, and flat_index() is asked only for an index of the
     # array's own dimensionality (any other route to `self.data` - a shortcut for one-element indices, say - answers wrong-length indices)
     FI = ARR + "shape::strides::Strides::flat_index"
